@@ -1316,6 +1316,32 @@ def expand_aliases(fn: ast.FunctionDef) -> ast.FunctionDef:
                     in_loop = any(isinstance(lp, (ast.For, ast.While)) and any(u is x for u in uses for x in ast.walk(lp)) for lp in ast.walk(new))
                     if uses and all(pos(u) < first_store for u in uses) and not in_loop and pos(st) < first_store:
                         alias[nm] = v
+    # inside a loop body: `slots = mod.in_link_slots` (chain rooted at the loop variable, self or a parameter; the local bound once in
+    # the function, used only later in the same body; the chain never re-assigned) abbreviates the chain for the rest of the iteration
+    roots_ok = {"self"} | {a.arg for a in new.args.args}
+    for lp in [n for n in ast.walk(new) if isinstance(n, (ast.For, ast.AsyncFor))]:
+        lvars = {m.id for m in ast.walk(lp.target) if isinstance(m, ast.Name)}
+        if any(cnt.get(v, 0) != 1 for v in lvars):
+            continue
+        drop = []
+        for st in lp.body:
+            if not (isinstance(st, ast.Assign) and len(st.targets) == 1 and isinstance(st.targets[0], ast.Name) and isinstance(st.value, ast.Attribute)):
+                continue
+            nm, v = st.targets[0].id, st.value
+            chain = v
+            while isinstance(chain, ast.Attribute):
+                chain = chain.value
+            if not (isinstance(chain, ast.Name) and (chain.id in lvars or chain.id in roots_ok)) or cnt.get(nm) != 1 or nm in banned or nm in alias:
+                continue
+            if norm(v) in stored_chains:
+                continue
+            uses = [n for n in ast.walk(new) if isinstance(n, ast.Name) and n.id == nm and isinstance(n.ctx, ast.Load)]
+            inside = {id(x) for x in ast.walk(lp)}
+            if uses and all(id(u) in inside and pos(u) > pos(st) for u in uses):
+                alias[nm] = v
+                drop.append(st)
+        if drop:
+            lp.body = [x for x in lp.body if not any(x is d for d in drop)] or [ast.Pass()]
     if not alias:
         return new
     new.body = [st for st in new.body if not (isinstance(st, ast.Assign) and len(st.targets) == 1 and isinstance(st.targets[0], ast.Name)
